@@ -692,7 +692,10 @@ def _meta_group_roles(repo, rep):
     want_t = sorted(g - 1 for g, r in roles.items() if r == "type")
     want_c = sorted(g - 1 for g, r in roles.items() if r == "charset")
     if len(want_t) < 2 or len(want_c) < 2:
-        raise AnalysisError("RE_META group roles not understood: %s" % roles)
+        rep.check(False, "R17.1", U + "RE_META", "the meta pattern captures "
+                  "content type and charset in both attribute orders",
+                  construct="meta-group-roles", detail=str(roles))
+        return
     ok = False
     detail = "no return of a pair taken from match.groups()"
     for r in ast.walk(f.node):
